@@ -23,7 +23,7 @@ fn spec(t: Tier) -> Spec {
     Spec {
         id: "C12",
         level: "exploration",
-        rule: format!("pattern = sequence of atoms from {:?} (literals incl. regex metacharacters, * ?, backslash escapes, well-formed bracket expressions with negation/range/class/leading ]/escaped ]/inner [, '/' inside a bracket, stray [ ] !); subject = every non-empty string of <= k characters over {:?}. -lname: one directory of symbolic links whose targets are all the subjects; -name: files named by the '/'-free subjects; -path: the same files, pattern prefixed by the literal directory; -ilname/-iname/-ipath with case folding. Slices: {}; plus every pattern of <= 2 atoms given to -iname and to -name in the same expression; plus -name/-iname on starting points spelled N, ./N, N/, N//, N/., N/.., ., .., N/./., N/../N (subject = last path component as given). Long slice: runs of 1..14 `?` (alone, after/before `*`, between literals), 1..14 brackets, two/three stars separated by brackets, `?` or literals, literal patterns of 15..240 bytes, against subjects of 1..14, 20, 40, 100, 140, 160, 200, 240 bytes, for -name, -iname, -path, -lname, -ilname (oracle glibc fnmatch, plus the reference matcher up to 40 bytes). For each (pattern, subject) the real find's selection must equal fnmatch(): glibc fnmatch(3) (C locale, flags 0 / FNM_CASEFOLD) and the reference matcher written from the statement must agree, otherwise the pair is counted as oracle-undecided and not judged. evaluation = (primary, pattern, subject); non-trivial = pattern containing a special atom (not only literals)", ATOMS, SUBJ.iter().map(|c| (*c as char).to_string()).collect::<Vec<_>>(), t.pick("-lname atoms<=3 x k<=3 and 12-atom sub-alphabet<=3 x k<=3; other primaries atoms<=2 x k<=3", "-lname atoms<=4 x k<=3, atoms<=3 x k<=4, sub-alphabet<=5 x k<=3; other five primaries atoms<=3 x k<=3")),
+        rule: format!("pattern = sequence of atoms from {:?} (literals incl. regex metacharacters, * ?, backslash escapes, well-formed bracket expressions with negation/range/class/leading ]/escaped ]/inner [, '/' inside a bracket, stray [ ] !); subject = every non-empty string of <= k characters over {:?}. -lname: one directory of symbolic links whose targets are all the subjects; -name: files named by the '/'-free subjects; -path: the same files, pattern prefixed by the literal directory; -ilname/-iname/-ipath with case folding. Slices: {}; plus every pattern of <= 2 atoms given to -iname and to -name in the same expression; plus -name/-iname on starting points spelled N, ./N, N/, N//, N/., N/.., ., .., N/./., N/../N (subject = last path component as given). Environment slice (binary): nine patterns x -name/-iname/-path/-lname on dot-files with POSIXLY_CORRECT set (also empty), LC_ALL=en_US.UTF-8, LANG=C — the selection is fnmatch's without FNM_PERIOD whatever the environment; -lname on /proc/self/cwd and /proc/self/exe (lstat size 0). Long slice: runs of 1..14 `?` (alone, after/before `*`, between literals), 1..14 brackets, two/three stars separated by brackets, `?` or literals, literal patterns of 15..240 bytes, against subjects of 1..14, 20, 40, 100, 140, 160, 200, 240 bytes, for -name, -iname, -path, -lname, -ilname (oracle glibc fnmatch, plus the reference matcher up to 40 bytes). For each (pattern, subject) the real find's selection must equal fnmatch(): glibc fnmatch(3) (C locale, flags 0 / FNM_CASEFOLD) and the reference matcher written from the statement must agree, otherwise the pair is counted as oracle-undecided and not judged. evaluation = (primary, pattern, subject); non-trivial = pattern containing a special atom (not only literals)", ATOMS, SUBJ.iter().map(|c| (*c as char).to_string()).collect::<Vec<_>>(), t.pick("-lname atoms<=3 x k<=3 and 12-atom sub-alphabet<=3 x k<=3; other primaries atoms<=2 x k<=3", "-lname atoms<=4 x k<=3, atoms<=3 x k<=4, sub-alphabet<=5 x k<=3; other five primaries atoms<=3 x k<=3")),
         bound: json!({"atoms": ATOMS.len(), "sub_atoms": SUB_ATOMS.len(), "subject_alphabet": SUBJ.len()}),
         assumptions: vec![
             "ASCII only (glibc's C locale is bytewise)".into(),
@@ -467,12 +467,94 @@ fn long_slice(ctx: &mut Ctx) {
     }
 }
 
+/// Environment: the answers do not depend on POSIXLY_CORRECT (find calls fnmatch without
+/// FNM_PERIOD: `*`, `?` and brackets match a leading '.'), and link targets are read in full on
+/// file systems whose lstat size is not the target's length (/proc/self/cwd, exe, fd/0).
+fn environment_slice(ctx: &mut Ctx) {
+    use crate::findrun::run_find_bin_env;
+    let sbx = ctx.sbx.clone();
+    let d = sbx.join("E");
+    let _ = crate::sandbox::force_remove(&d);
+    std::fs::create_dir(&d).unwrap();
+    let names = [".h", ".hid", "a.b", "x", ".."];
+    for n in [".h", ".hid", "a.b", "x"] {
+        std::fs::write(d.join(n), b"").unwrap();
+        let _ = std::os::unix::fs::symlink(n, d.join(format!("l{}", n.replace('.', "_"))));
+    }
+    let _ = names;
+    let cs = |s: &str| CString::new(s).unwrap();
+    let pats = ["*", "*h*", "?h", "[.]h", ".*", "*.b", "?*", "[!a]*", "*d"];
+    for (var, val) in [("POSIXLY_CORRECT", "1"), ("POSIXLY_CORRECT", ""), ("LC_ALL", "en_US.UTF-8"), ("LANG", "C")] {
+        for prim in ["-name", "-iname", "-path", "-lname"] {
+            for p in pats {
+                let pat = if prim == "-path" { format!("E/{p}") } else { p.to_string() };
+                let got = run_find_bin_env(&["E", "-mindepth", "1", prim, &pat, "-printf", "%f\\n"], &sbx, None, &[(var, val)]);
+                ctx.rep.evaluations += 1;
+                ctx.rep.nontrivial += 1;
+                ctx.rep.count("environment_cases", 1);
+                let sel: BTreeSet<String> = String::from_utf8_lossy(&got.out).lines().map(String::from).collect();
+                let mut want: BTreeSet<String> = BTreeSet::new();
+                for n in [".h", ".hid", "a.b", "x"] {
+                    let link = format!("l{}", n.replace('.', "_"));
+                    match prim {
+                        "-lname" => {
+                            if g::libc_fnmatch(&cs(p), &cs(n), false) == Some(true) {
+                                want.insert(link);
+                            }
+                        }
+                        _ => {
+                            for cand in [n.to_string(), link] {
+                                if g::libc_fnmatch(&cs(p), &cs(&cand), prim == "-iname") == Some(true) {
+                                    want.insert(cand);
+                                }
+                            }
+                        }
+                    }
+                }
+                if sel != want || got.code != Ok(0) {
+                    ctx.rep.violation(
+                        &format!("C12 {prim}: the answer depends on the environment variable {var}"),
+                        format!("{var}={val:?} find E -mindepth 1 {prim} {pat:?}: selected {:?}, fnmatch (no flags) selects {:?}; status {:?}", sel, want, got.code),
+                        json!({"prop":"C12","environment":true}),
+                    );
+                }
+            }
+        }
+    }
+    // /proc links of the find process itself: cwd -> the sandbox, exe -> the binary
+    let exe = crate::engine::repo_bin_dir().join("find");
+    let exe = std::fs::canonicalize(&exe).unwrap_or(exe).display().to_string();
+    let cwd = std::fs::canonicalize(&sbx).unwrap_or(sbx.clone()).display().to_string();
+    for (link, target) in [("/proc/self/cwd", cwd.as_str()), ("/proc/self/exe", exe.as_str())] {
+        let tail = format!("*{}", &target[target.len().saturating_sub(6)..]);
+        for (pat, want) in [("*", true), (target, true), (tail.as_str(), true), ("*no-such-tail", false)] {
+            let got = run_find_bin_env(&[link, "-maxdepth", "0", "-lname", pat, "-printf", "%l\\n"], &sbx, None, &[]);
+            ctx.rep.evaluations += 1;
+            ctx.rep.nontrivial += 1;
+            ctx.rep.count("environment_cases", 1);
+            let out = String::from_utf8_lossy(&got.out).to_string();
+            let ok = if want { out == format!("{target}\n") } else { out.is_empty() };
+            if !ok || got.code != Ok(0) {
+                ctx.rep.violation(
+                    "C12 -lname on a /proc link (lstat size is not the length of the target)",
+                    format!("find {link} -maxdepth 0 -lname {pat:?} -printf '%l\\n': output {out:?}, the target is {target:?} (expected {}); status {:?}", if want { "a match" } else { "no match" }, got.code),
+                    json!({"prop":"C12","environment":true}),
+                );
+            }
+        }
+    }
+    let _ = crate::sandbox::force_remove(&d);
+}
+
 fn run(ctx: &mut Ctx) {
     let mut job = 0u64;
     let mut world: Option<World> = None;
     if ctx.shard == 0 {
         let _ = std::fs::create_dir(ctx.sbx.join("N"));
         roots_slice(ctx);
+    }
+    if ctx.shard == 1 % ctx.nshards {
+        environment_slice(ctx);
     }
     long_slice(ctx);
     // mixed slice first (patterns of <= 2 atoms, subjects <= 2|3)
